@@ -136,6 +136,7 @@ def main(run):
     run.prove(extra_targets=["proofs/Pinned_parse.vo", "proofs/Pinned_parserecv.vo"])
     model_ok = run.build_model()
     run.run_findings()
+    run.pylite(['requests', 'device_side'])
     if model_ok:
         for what, c, m in run.differential(cases(run)):
             run.violation(what, {"call": c["cmd"][:2000], "implementation": c["impl"][:3000],
